@@ -46,13 +46,11 @@ func vVerifyWithOptionsCase(zipSym bool) (got, wantDefault, wantZip bool, zip bo
 		msg = vBlob("M")
 	case 1:
 		msg = vBlob("M")
-		ctx = vBlobString("ctx")
-		vAssume(len(ctx) >= 1 && len(ctx) <= 255)
+		ctx = vCtxString()
 		v = 1
 	case 2:
 		msg = vBytes("digest", 64)
-		ctx = vBlobString("ctx")
-		vAssume(len(ctx) >= 1 && len(ctx) <= 255)
+		ctx = vCtxString()
 		opts.Hash = crypto.SHA512
 		v = 2
 	case 3:
@@ -93,13 +91,11 @@ func vVerifyWithOptionsCaseLen64() (got, wantDefault, wantZip bool, zip bool) {
 		msg = vBlob("M")
 	case 1:
 		msg = vBlob("M")
-		ctx = vBlobString("ctx")
-		vAssume(len(ctx) >= 1 && len(ctx) <= 255)
+		ctx = vCtxString()
 		v = 1
 	case 2:
 		msg = vBytes("digest", 64)
-		ctx = vBlobString("ctx")
-		vAssume(len(ctx) >= 1 && len(ctx) <= 255)
+		ctx = vCtxString()
 		opts.Hash = crypto.SHA512
 		v = 2
 	case 3:
